@@ -19,17 +19,19 @@ CONSTANTS
   DevMsgBeforeOpen, \* a MSG is dispatched although no OpenSecureChannel was ever issued
   DevNoChunkLimit   \* pending chunks are never counted
 
-VARIABLES tstate, issued, pending, evt
-vars == <<tstate, issued, pending, evt>>
+VARIABLES tstate, issued, pending, evt,
+          pmsg      \* the pending chunks are the intermediate chunks of ONE service request (they reassemble with a final MSG chunk)
+vars == <<tstate, issued, pending, evt, pmsg>>
 
-Init == tstate = "WaitingHello" /\ issued = FALSE /\ pending = 0 /\ evt = [ev |-> "Init"]
+Init == tstate = "WaitingHello" /\ issued = FALSE /\ pending = 0 /\ evt = [ev |-> "Init"] /\ pmsg = FALSE
 
 Obs(kind, fl, svc, fed, out, err) ==
   [ev |-> "Frame", kind |-> kind, fl |-> fl, svc |-> svc, fed |-> fed, out |-> out, err |-> err, fail |-> "none",
-   state |-> tstate', pend |-> pending', bytes |-> pending' * ChunkBytes]
+   state |-> tstate', pend |-> pending', bytes |-> pending' * ChunkBytes,
+   sz |-> IF kind = "HEL" THEN 0 ELSE ChunkBytes]      \* size of the frame (not compared: a single-chunk message is smaller)
 
 Finish(kind, fl, svc, err) ==
-  /\ tstate' = "Finished" /\ UNCHANGED issued
+  /\ tstate' = "Finished" /\ UNCHANGED <<issued, pmsg>>
   /\ pending' = IF fl = "F" /\ tstate = "Process" /\ kind # "HEL" THEN 0 ELSE pending     \* a final chunk drains the pending list before anything can fail
   /\ evt' = Obs(kind, fl, svc, TRUE, <<>>, err)
 
@@ -38,28 +40,32 @@ Finish(kind, fl, svc, err) ==
 \* connection): before an OpenSecureChannel it is refused like any MSG, afterwards it fails the channel id validation.
 Frame(kind, fl, svc) ==
   IF tstate = "Finished"
-  THEN /\ UNCHANGED <<tstate, issued, pending>>                      \* the socket is closed: nothing is read any more
+  THEN /\ UNCHANGED <<tstate, issued, pending, pmsg>>                \* the socket is closed: nothing is read any more
        /\ evt' = Obs(kind, fl, svc, FALSE, <<>>, "")
   ELSE IF tstate = "WaitingHello"
   THEN IF kind = "HEL"
-       THEN /\ tstate' = "Process" /\ UNCHANGED <<issued, pending>>
+       THEN /\ tstate' = "Process" /\ UNCHANGED <<issued, pending, pmsg>>
             /\ evt' = Obs(kind, fl, svc, TRUE, <<"ACK">>, "")
        ELSE Finish(kind, fl, svc, "error")
   ELSE \* Process
   IF kind = "HEL" THEN Finish(kind, fl, svc, "error")
   ELSE IF fl = "A"
-  THEN /\ pending' = 0 /\ UNCHANGED <<tstate, issued>> /\ evt' = Obs(kind, fl, svc, TRUE, <<>>, "")
+  THEN /\ pending' = 0 /\ UNCHANGED <<tstate, issued, pmsg>> /\ evt' = Obs(kind, fl, svc, TRUE, <<>>, "")
   ELSE IF fl = "C"
   THEN LET over == ~DevNoChunkLimit /\ ((MaxChunks > 0 /\ pending + 1 > MaxChunks) \/ (MaxMsg > 0 /\ (pending + 1) * ChunkBytes > MaxMsg))
        IN IF over THEN Finish(kind, fl, svc, "error")
           ELSE /\ pending' = pending + 1 /\ UNCHANGED <<tstate, issued>> /\ evt' = Obs(kind, fl, svc, TRUE, <<>>, "")
+               /\ pmsg' = ((pending = 0 \/ pmsg) /\ kind = "MSG")
   ELSE \* final chunk: the message is assembled and dispatched by its chunk type
   LET over == ~DevNoChunkLimit /\ ((MaxChunks > 0 /\ pending + 1 > MaxChunks) \/ (MaxMsg > 0 /\ (pending + 1) * ChunkBytes > MaxMsg))
   IN
-  IF over THEN /\ tstate' = "Finished" /\ UNCHANGED <<issued, pending>>      \* refused before it is put on the list
+  IF over THEN /\ tstate' = "Finished" /\ UNCHANGED <<issued, pending, pmsg>>      \* refused before it is put on the list
                /\ evt' = Obs(kind, fl, svc, TRUE, <<>>, "error")
-  ELSE IF pending > 0 THEN Finish(kind, fl, svc, "error")   \* (the harness's intermediate chunks carry no decodable message)
-  ELSE IF kind = "OPNI"
+  \* intermediate chunks followed by a final chunk: the harness sends the pieces of one GetEndpoints request when all of them are
+  \* MSG chunks (they reassemble into the request); any other mixture does not decode
+  ELSE IF pending > 0 /\ ~(pmsg /\ kind = "MSG" /\ svc = "GetEndpoints") THEN Finish(kind, fl, svc, "error")
+  ELSE UNCHANGED pmsg /\ (
+  IF kind = "OPNI"
   THEN /\ issued' = TRUE /\ pending' = 0 /\ UNCHANGED tstate /\ evt' = Obs(kind, fl, svc, TRUE, <<"OPN">>, "")
   ELSE IF kind = "OPNR"
   THEN IF issued THEN /\ pending' = 0 /\ UNCHANGED <<tstate, issued>> /\ evt' = Obs(kind, fl, svc, TRUE, <<"OPN">>, "")
@@ -72,7 +78,7 @@ Frame(kind, fl, svc) ==
   IF ~issued /\ ~DevMsgBeforeOpen
   THEN /\ tstate' = "Finished" /\ pending' = 0 /\ UNCHANGED issued /\ evt' = Obs(kind, fl, svc, TRUE, <<>>, "error")
   ELSE /\ pending' = 0 /\ UNCHANGED <<tstate, issued>>
-       /\ evt' = Obs(kind, fl, svc, TRUE, <<IF svc = "GetEndpoints" THEN "GetEndpointsResponse" ELSE "ServiceFault">>, "")
+       /\ evt' = Obs(kind, fl, svc, TRUE, <<IF svc = "GetEndpoints" THEN "GetEndpointsResponse" ELSE "ServiceFault">>, ""))
 
 -----------------------------------------------------------------------------
 CONSTANTS Kinds, MaxDepth
